@@ -135,12 +135,18 @@ func (e *Expr) eval(obj map[string]any) evalResult {
 		if !trav || !found {
 			return evError
 		}
-		m, ok := parent.(map[string]any)
-		if !ok {
+		// cel-go (default options, no EnableErrorOnBadPresenceTest): a presence test on a map tests the
+		// key, on a list it is an error (string index), on any other value (string, number, bool,
+		// null) it is simply false. See interpreter/attributes.go refQualify.
+		switch m := parent.(type) {
+		case map[string]any:
+			_, has := m[e.Path[len(e.Path)-1]]
+			return b(has)
+		case []any:
 			return evError
+		default:
+			return evFalse
 		}
-		_, has := m[e.Path[len(e.Path)-1]]
-		return b(has)
 	case "eq", "ne", "gt", "lt":
 		v, found, trav := lookup(obj, e.Path)
 		if !trav || !found {
